@@ -133,5 +133,20 @@ theorem rebalance_down_is_worth_what_was_burned (ds sh T D : Int) (hD : 0 < D) (
 example : let x := (15 * 3 : Int) / 10
     (8 - 3) * (15 - x) * 10 ≤ (8 * 15 - x * 10) * (10 - 3) ∧ (8 * 15 - x * 10) * (10 - 3) < (8 - 3) * (15 - x) * 10 + 10 * 10 := by decide
 
+
+/-- the chain from "expected" to "carried", link 1: the stake value the rebalancer reads, `current` = Quo(ds·T, D) for the module's
+    `ds` of the validator's `D` shares backed by `T` tokens, is the share value ds·T/D to within (½ + 10⁻¹⁸) units of the 18th
+    digit -/
+theorem current_stake_is_the_share_value (ds D : Dec) (T : Int) (hds : 0 ≤ ds) (hT : 0 ≤ T) (hD : 0 < D) :
+    quo (mulInt ds T) D * P * D ≤ mulInt ds T * P2 + H * D ∧ mulInt ds T * P2 ≤ quo (mulInt ds T) D * P * D + (H + 1) * D :=
+  quo_bounds (mulInt ds T) D (by unfold mulInt; exact Int.mul_nonneg hds hT) hD
+
+/-- link 2: the amount minted and delegated (or unbonded and burned) is the floor of the gap between expected and current:
+    amt·10¹⁸ ≤ gap < (amt+1)·10¹⁸ — so after link 3 (`top_up_is_worth_what_was_paid` / `rebalance_down_is_worth_what_was_burned`: the
+    stake moves by the amount to within the value of one 10⁻¹⁸ share, resp. the truncation of the burned tokens) the validator
+    carries its target to within one base unit below and a rounding above: inside the property's two base units -/
+theorem rebalance_amount_is_the_floor_of_the_gap (gap : Dec) (hg : 0 ≤ gap) :
+    truncateInt gap * P ≤ gap ∧ gap < (truncateInt gap + 1) * P := truncateInt_bounds gap hg
+
 end C10
 end Alliance
